@@ -565,6 +565,14 @@ class Check:
         self.vamh_failures(d.get('oracle_failures'), 'vamh gen seed=%d' % self.seed)
         if len(self.cov['samples']) < 6:
             self.cov['samples'].append(dict(component='vamh', profiles=vs['profiles'], note='op kinds and results of this run', ops=d.get('op_kinds'), results=d.get('results')))
+        # fixed scenarios: vam.New with malformed / boundary CreateOptions (the histories use well-formed ones only)
+        if self.pid in ('C13', 'C20'):
+            rc, out, err = sh([B + '/vamh', 'newargs'], timeout=300)
+            self.cov['evaluations'] += 7
+            for l in out.split('\n'):
+                if l.startswith('ORACLE-FAIL') and ('property=%s ' % self.pid) in l:
+                    self.cov['oracle_failures'] += 1
+                    self.violations.append((self.write_note('newargs', out), l, True))
         # correspondence of the whole-allocator model Vam.v (extracted: build/ocaml/drv_vamh) with the
         # real allocator on the profiles the model covers completely
         drv = B + '/ocaml/drv_vamh'
